@@ -102,6 +102,7 @@ def check_tensor(sc, chars_with_blank_engine, chars, mon, ctx, expected_paths=No
     srt = np.sort(sc, axis=1)
     margin = (srt[:, -1, :] - srt[:, -2, :]) if C > 1 else np.ones((N_, T))
     got = ctx.poe.greedy_decode_ctc(torch.from_numpy(sc.copy()), chars_with_blank_engine)
+    mon.observe('engine texts', got)
     gd = ctx.decoders.GreedyDecoder(chars + [ctx.decoders.BLANK_SYMBOL])
     nontriv = False
     for n in range(N_):
